@@ -222,6 +222,11 @@ fn run<'s, T: Logos<'s> + std::fmt::Debug>(src: &'s T::Source, partial: bool, st
         if n > 10000 { println!("TOOMANY"); break; }
         let item = lex.next();
         let sp = lex.span();
+        #[cfg(logos_verif)]
+        {
+            let r = logos::verif_trace::take();
+            println!("READS {}", r.iter().map(|(o, s)| format!("{o}:{s}")).collect::<Vec<_>>().join(","));
+        }
         match item {
             None => { println!("NONE {} {}", sp.start, sp.end); break; }
             Some(Ok(t)) => println!("OK {} {} {:?}", sp.start, sp.end, t),
